@@ -253,7 +253,7 @@ Proof. intros H. rewrite gt_root_app. destruct x; [contradiction|reflexivity]. Q
 Lemma skips_z z f lead : skips f (length z) lead z = z.
 Proof. apply skips_root. apply gt_root_z. Qed.
 
-Lemma skips_main z : z = [] \/ z = [SL] -> forall f lead rcs,
+Lemma skips_main z : (z = [] \/ exists z', z = SL :: z') -> forall f lead rcs,
   Forall noslash rcs -> lastok z rcs -> (lead = true -> rcs <> []) ->
   (length (Ld lead ++ F rcs ++ z) < f)%nat ->
   skips f (length z) lead (Ld lead ++ F rcs ++ z) = resp lead z (sfn 0%nat rcs).
@@ -289,9 +289,10 @@ Proof.
     change (sfn 0%nat ([] :: rest)) with (sfn 0%nat rest). cbn [app].
     destruct rest as [|r1 rest1].
     + cbn [Tl sfn resp]. destruct lead; [|apply skips_z].
-      destruct Hz as [->| ->].
+      destruct Hz as [->|(z' & ->)].
       * exfalso. destruct (Hlast eq_refl ltac:(discriminate)) as [H _]. apply H. reflexivity.
-      * etransitivity; [apply (step_sl f 1%nat true []); reflexivity|]. apply (skips_z [SL]).
+      * etransitivity; [apply (step_sl f (length (SL :: z')) true z'); unfold gt_root; apply Nat.ltb_lt; cbn [Ld app length]; lia|].
+        apply (skips_z (SL :: z')).
     + rewrite Tl_cons. rewrite step_sl.
       * destruct lead; [apply (IHrest true); [left; reflexivity|discriminate]|].
         rewrite <- res_false. apply (IHrest false); [right; reflexivity|discriminate].
@@ -316,9 +317,9 @@ Proof.
     + (* "." *)
       change (sfn 0%nat ([DOT] :: rest)) with (sfn 0%nat rest). cbn [app].
       destruct rest as [|r1 rest1].
-      * cbn [Tl sfn resp]. destruct Hz as [->| ->].
+      * cbn [Tl sfn resp]. destruct Hz as [->|(z' & ->)].
         -- rewrite step_dot_end; [reflexivity|]. destruct lead; reflexivity.
-        -- rewrite step_dot_sl by (destruct lead; reflexivity). apply (skips_z [SL]).
+        -- rewrite step_dot_sl by exact Hgt. apply (skips_z (SL :: z')).
       * rewrite Tl_cons. rewrite step_dot_sl by exact Hgt.
         destruct lead.
         -- apply (IHrest true); [left; reflexivity|discriminate].
@@ -337,10 +338,10 @@ Proof.
       * (* ".." *)
         change (sfn 0%nat ([DOT; DOT] :: rest)) with (sfn 1%nat rest). cbn [app].
         destruct rest as [|r1 rest1].
-        -- cbn [Tl sfn resp]. destruct Hz as [->| ->].
+        -- cbn [Tl sfn resp]. destruct Hz as [->|(z' & ->)].
            ++ exfalso. destruct (Hlast eq_refl ltac:(discriminate)) as [_ H]. discriminate H.
-           ++ rewrite step_dd by (destruct lead; reflexivity).
-              change (gt_root (length [SL]) [SL]) with false. cbn iota. apply (skips_z [SL]).
+           ++ rewrite step_dd by exact Hgt.
+              rewrite (gt_root_z (SL :: z')). cbn iota. apply (skips_z (SL :: z')).
         -- rewrite Tl_cons. rewrite step_dd by exact Hgt.
            remember (r1 :: rest1) as rest eqn:Er.
            assert (Hrne : rest <> []) by (rewrite Er; discriminate).
@@ -409,16 +410,23 @@ Proof.
     apply (IH ltac:(discriminate) T m). cbn [app length] in *. lia.
 Qed.
 
-Lemma emit_z z m : z = [] \/ z = [SL] -> (length z <= m)%nat -> iter_seq m (length z) z = z.
+Lemma emit_root k : forall w m, (length w <= k)%nat -> (length w <= m)%nat -> iter_seq m k w = w.
 Proof.
-  intros [->| ->] Hm; [apply iter_seq_nil|].
-  destruct m; [cbn in Hm; lia|]. cbn [iter_seq advance]. rewrite iter_seq_nil. reflexivity.
+  induction w as [|x w IH]; intros m Hk Hm; [apply iter_seq_nil|].
+  destruct m; [cbn in Hm; lia|]. cbn [iter_seq]. f_equal. rewrite advance_after. unfold after.
+  cbn [length] in *. destruct w as [|c w']; [apply iter_seq_nil|].
+  destruct (c =? SL).
+  - rewrite skips_root by (unfold gt_root; apply Nat.ltb_ge; cbn [length] in *; lia). apply IH; lia.
+  - apply IH; lia.
 Qed.
+
+Lemma emit_z z m : (length z <= m)%nat -> iter_seq m (length z) z = z.
+Proof. intros H. apply emit_root; [apply le_n|exact H]. Qed.
 
 Lemma name_nonempty n : isJ n = false -> n <> [].
 Proof. intros H E. subst. discriminate. Qed.
 
-Lemma emit z : z = [] \/ z = [SL] -> forall N rcs, (length rcs <= N)%nat ->
+Lemma emit z : (z = [] \/ exists z', z = SL :: z') -> forall N rcs, (length rcs <= N)%nat ->
   sfn 0%nat rcs = rcs -> Forall noslash rcs -> lastok z rcs ->
   forall m, (length (F rcs ++ z) <= m)%nat ->
   iter_seq m (length z) (F rcs ++ z) = F (bc 0%nat rcs) ++ z.
@@ -432,9 +440,9 @@ Proof.
     rewrite (emit_chars (length z) n Hn (name_nonempty n Hj) _ m Hm).
     rewrite app_length in Hm.
     destruct rest as [|r1 rest1].
-    + cbn [Tl bc join]. f_equal. destruct Hz as [->| ->]; [apply iter_seq_nil|].
+    + cbn [Tl bc join]. f_equal. destruct Hz as [->|(z' & ->)]; [apply iter_seq_nil|].
       cbn [Tl length] in Hm. unfold after. change (SL =? SL) with true. cbn iota.
-      rewrite (skips_z [SL]). apply (emit_z [SL]); [right; reflexivity|cbn [length]; lia].
+      rewrite (skips_z (SL :: z')). apply (emit_z (SL :: z')). cbn [length] in *. lia.
     + rewrite Tl_cons in *. unfold after. change (SL =? SL) with true. cbn iota.
       remember (r1 :: rest1) as rest eqn:Er. assert (Hrne : rest <> []) by (rewrite Er; discriminate).
       assert (HTlen : length (SL :: F rest ++ z) = (1 + length (F rest) + length z)%nat).
@@ -445,7 +453,7 @@ Proof.
       rewrite (bc_sfn 0%nat rest).
       destruct (sfn_suffix 0%nat rest) as [a Ha].
       destruct (sfn 0%nat rest) as [|n2 rest2] eqn:Es.
-      * cbn [resp join]. f_equal. apply emit_z; [exact Hz|lia].
+      * cbn [resp join]. f_equal. apply emit_z. lia.
       * destruct (sfn_head 0%nat rest n2 rest2 Es) as [Hj2 Hd2].
         assert (Hns2 : Forall noslash (n2 :: rest2)).
         { rewrite Ha in Hrest. apply Forall_app in Hrest. apply Hrest. }
@@ -544,7 +552,7 @@ Lemma rev_F_canon_comps cs : rev (F (canon_comps cs)) = F (bc 0%nat (map (@rev N
 Proof. rewrite canon_comps_bc, rev_F, rev_involutive, bc_map_rev. reflexivity. Qed.
 
 (* the iterator from a position given as components *)
-Lemma iter_from z rcs f : z = [] \/ z = [SL] -> Forall noslash rcs -> lastok z rcs ->
+Lemma iter_from z rcs f : (z = [] \/ exists z', z = SL :: z') -> Forall noslash rcs -> lastok z rcs ->
   (length (F rcs ++ z) < f)%nat ->
   let r := skips f (length z) false (F rcs ++ z) in
   iter_seq (length r) (length z) r = F (bc 0%nat rcs) ++ z.
@@ -578,7 +586,7 @@ Proof.
     assert (Hrev : rev (SL :: raw') = F rcs ++ [SL]).
     { cbn [rev]. rewrite <- HF' at 1. rewrite rev_F. reflexivity. }
     rewrite Hrev. change 1%nat with (length [SL]).
-    rewrite (iter_from [SL] rcs (S (length (SL :: raw')))); [|right; reflexivity| | |].
+    rewrite (iter_from [SL] rcs (S (length (SL :: raw')))); [|right; exists []; reflexivity| | |].
     + cbn [rev]. rewrite rev_F_canon_comps, Hsp. cbn [rev]. rewrite map_app. cbn [map rev].
       rewrite bc_junk_end. reflexivity.
     + unfold rcs. apply Forall_forall. intros x Hx. apply in_map_iff in Hx. destruct Hx as (y & <- & Hy).
